@@ -8,10 +8,10 @@ GUARD = "isographlabs_isograph_verif"
 # id -> (category, technique, level text, level note, design_ref)
 CHECKS = {
  "C01": ("exploration", "stateful model-based property testing (proptest histories, interpreter + never-memoizing reference model; bodies written once, generic over pico and the model)",
-         "Histories of <=40 operations over 3 keyed sources, a singleton and a tracked map with 26 memoized function shapes (every parameter kind, depth 3, backdating, control-flow-dependent dependencies, tracked/untracked readers, intern_value / intern_ref, retain / GC with LRU capacity 1..3) run against pico and a plain-Rust model; every call / lookup value must equal a from-scratch evaluation. 60k histories quick, 1.5M thorough. Sampling, not proof.",
+         "Histories of <=40 operations over 3 keyed sources, a singleton and a tracked map with 26 memoized function shapes (every parameter kind, depth 3, backdating, control-flow-dependent dependencies, tracked/untracked readers, intern_value / intern_ref, retain / GC with LRU capacity 1..3) run against pico and a plain-Rust model; every call / lookup value must equal a from-scratch evaluation. 400k histories quick, 3M thorough. Sampling, not proof.",
          "Documented pico preconditions are respected by construction (no write during a call, SourceId arguments only while the source exists); handle lookups only inside a write-free window; the open C03 intern_ref finding is excluded by construction.", "5/C01"),
  "C02": ("exploration", "stateful property testing with execution counters judged by an early-cut-off reference model",
-         "Same histories as C01; per-(function, arguments) body executions are judged by a model that allows a run only if the node never ran, was collected per the root model, or a recorded direct dependency changed since its last run (this implies the equal-value-write, unrelated-write and backdating clauses). 60k histories quick, 1.5M thorough.",
+         "Same histories as C01; per-(function, arguments) body executions are judged by a model that allows a run only if the node never ran, was collected per the root model, or a recorded direct dependency changed since its last run (this implies the equal-value-write, unrelated-write and backdating clauses). 300k histories quick, 3M thorough.",
          "A->B->A value flips count as changes; under-execution is C01's business; after a write-free GC re-executions are attributed to C03.", "5/C02"),
  "C03": ("exploration", "stateful model-based property testing (root / reachability model, execution counters, handle lookups) + replay of selected histories under Miri",
          "GC-heavy histories (capacity 1..3, retain / clear / never_garbage_collect, intern_ref re-interning) against a root model: the closure of retained + LRU roots is served without re-execution, live handles read their original values, no pico panic; selected histories are replayed under Miri (use-after-free, uninitialised reads). 60k native + 8 Miri histories quick, 1.2M + 200 thorough.",
@@ -29,31 +29,31 @@ CHECKS = {
          "Valid literals in random layouts, exotic whitespace, hostile values (out-of-range ints, floats, lists), 1-3-step mutants and arbitrary Unicode text: parse_iso_literal returns Ok or Err without panicking; every span in the result, every semantic token and the diagnostic location satisfies start <= end <= len on character boundaries; semantic tokens strictly increase and do not overlap. 150k cases quick, 3M + 10M libFuzzer executions thorough.",
          "Inputs are valid UTF-8 (the API takes a String); a build without debug assertions is not run separately (the fuzz target is opt-level 2 with debug assertions).", "5/C07"),
  "C08": ("exploration", "property-based testing over generated projects (tape-driven model-first generator, proptest shrinking), each compiled by a fresh process of the real CLI; exit status / signal oracle",
-         "Generated valid projects of five feature tiers, single-fault mutants, raw token damage of schema / extension / sources and cyclic client fields are compiled by fresh isograph_cli processes; the process must exit 0 (iso.ts written) or 1 (diagnostics), never panic, abort or be killed by a signal. 1k projects quick, 80k thorough; recorded crash families are tolerated by root-cause signature only.",
+         "Generated valid projects of five feature tiers, single-fault mutants, raw token damage of schema / extension / sources and cyclic client fields are compiled by fresh isograph_cli processes; the process must exit 0 (iso.ts written) or 1 (diagnostics), never panic, abort or be killed by a signal. 2k projects quick, 80k thorough; recorded crash families are tolerated by root-cause signature only.",
          "The watch-mode clause is covered by C20's driver (panics there carry a C08-style signature); isograph_cli is the debug build of the working tree; a process exceeding 120 s is inconclusive.", "5/C08"),
  "C09": ("exploration", "property-based testing over generated projects (tape-driven model-first generator, proptest shrinking) compiled in-process; artifacts read as data with swc (tsread); oracle = the independent GraphQL front end refgql (parse + June-2018 validation rules)",
-         "Accepted generated projects of four tiers (literal / variable / enum / null / object arguments, big and negative ints, odd strings, nested variables, abstract types, pointers, @loadable, __refetch, @exposeField) and the four checked-in projects; every operation the runtime can reach (cooked default export of query_text.ts / refetch query texts / persisted document) is parsed and validated by refgql against the schema built from the very SDL given to the compiler. 4k programs (about 5600 operations) quick, 120k thorough.",
+         "Accepted generated projects of four tiers (literal / variable / enum / null / object arguments, big and negative ints, odd strings, nested variables, abstract types, pointers, @loadable, __refetch, @exposeField) and the four checked-in projects; every operation the runtime can reach (cooked default export of query_text.ts / refetch query texts / persisted document) is parsed and validated by refgql against the schema built from the very SDL given to the compiler. 24k programs (about 33000 operations) quick, 240k thorough.",
          "relay's parse_executable is a logged second opinion; negative ints are excluded by construction in 3/4 of the cases (recorded finding, counted); three recorded design limitations tolerated by signature.", "5/C09"),
  "C10": ("exploration", "property-based testing with the repository's real TypeScript runtime (libs/isograph-react/src/core under node 22) as the oracle",
-         "Accepted generated programs x 3-5 generated conforming responses per entrypoint (values per type, nulls where nullable, lists of 0..3, a concrete type per abstract position, ids from a small pool so entities are reached along several paths): the real runtime normalizes the response with the entrypoint's normalization AST and reads the entrypoint reader and every component reader the runtime reaches; any MissingData or exception is a violation. 400 programs (about 1700 responses) quick, 20000 programs thorough.",
+         "Accepted generated programs x 3-5 generated conforming responses per entrypoint (values per type, nulls where nullable, lists of 0..3, a concrete type per abstract position, ids from a small pool so entities are reached along several paths): the real runtime normalizes the response with the entrypoint's normalization AST and reads the entrypoint reader and every component reader the runtime reaches; any MissingData or exception is a violation. 8000 programs quick, 60000 thorough.",
          "Needs node 22 (exit 2 when absent). Project resolvers return null as in the generated sources; client-pointer targets and loadable fields are boundaries; responses come from a consistent world; five recorded root causes are excluded by construction in 4 of 5 programs and tolerated in the rest.", "5/C10"),
  "C11": ("exploration", "property-based testing over generated projects (tape-driven model-first generator, proptest shrinking) compiled in-process; artifacts read as data with swc (tsread); oracle = tree isomorphism between the refgql AST of the cooked operation text and the evaluated normalization AST",
-         "Same domain as C09, for the entrypoint and every refetch artifact: each selection set matched as a multiset, arguments by name and kind (Literal / String / Enum / Object / Variable), inline-fragment types, Linked vs Scalar against the schema, concreteType exactly when the field's type is an object type. 4k programs quick, 120k thorough.",
+         "Same domain as C09, for the entrypoint and every refetch artifact: each selection set matched as a multiset, arguments by name and kind (Literal / String / Enum / Object / Variable), inline-fragment types, Linked vs Scalar against the schema, concreteType exactly when the field's type is an object type. 24k programs quick, 240k thorough.",
          "Sibling order and isFallible are not asserted; two recorded deviations for abstract types (present in the checked-in pet-demo) tolerated by signature.", "5/C11"),
  "C12": ("exploration", "property-based testing + differential testing against the repository's TypeScript runtime executed under node 22",
          "Unit level: generated selections and pairs through normalization_alias, the compiler's emitted argument text (hook) and the runtime's getNetworkResponseKey: injectivity on pairs, legality of every key as a GraphQL name, compiler key == runtime key; every writable selection is also round-tripped through the real iso parser; project level: in every selection set of every operation of 300 compiled programs equal response keys mean equal (field, arguments) and each key equals the runtime key of the matching normalization-AST node. 62.5k unit cases + 300 programs quick, 1.6M + 10000 thorough.",
          "Needs node 22 (exit 2 when absent). Astral characters / float / enum values are API-level inputs the iso lexer cannot write. Six recorded root causes are tolerated one signature at a time.", "5/C12"),
  "C13": ("exploration", "property-based testing over generated projects compiled in-process; every artifact parsed with swc's TypeScript parser / serde_json, imports resolved against the artifact set",
-         "Accepted generated programs (hostile descriptions and strings, the whole option space) and the four checked-in projects: every .ts artifact parses as a TypeScript module without any (recovered) error, every .json parses, every relative import inside the artifact directory names a generated file, imports leaving it name an existing source file. 4k programs quick, 200k thorough.",
+         "Accepted generated programs (hostile descriptions and strings, the whole option space) and the four checked-in projects: every .ts artifact parses as a TypeScript module without any (recovered) error, every .json parses, every relative import inside the artifact directory names a generated file, imports leaving it name an existing source file. 24k programs quick, 400k thorough.",
          "swc_ecma_parser 3 is the reference for 'parses as TypeScript'; programs the compiler rejects or crashes on are skipped (counted).", "5/C13"),
  "C14": ("exploration", "metamorphic property-based testing: same files, fresh processes (fresh hash seeds), opposite creation order + decoy files; byte equality of artifact trees and diagnostics",
-         "Generated valid projects, multi-fault invalid projects (several diagnostics) and the four checked-in projects are each compiled three times by fresh CLI processes in two layouts; artifact trees and normalised stderr must be identical. 160 generated projects quick, 12k thorough.",
+         "Generated valid projects, multi-fault invalid projects (several diagnostics) and the four checked-in projects are each compiled three times by fresh CLI processes in two layouts; artifact trees and normalised stderr must be identical. 400 generated projects quick, 12k thorough.",
          "tmpfs enumeration order depends on creation order (that is what varies discovery order); timing phrases and the scratch directory name are removed from stderr; cases on which the compiler crashes are skipped (C08).", "5/C14"),
  "C15": ("exploration", "metamorphic property-based testing over pairs of generated projects (permute selection sets / repeat a selection under another alias / extract part of a selection set into a fresh client field with variables threaded through)",
-         "For every entrypoint the multiset of (cooked operation text, normalization AST) pairs - entrypoint query plus refetch queries - must be identical in P and its variant. 4k pairs quick, 120k thorough.",
+         "For every entrypoint the multiset of (cooked operation text, normalization AST) pairs - entrypoint query plus refetch queries - must be identical in P and its variant (the extraction variant also binds several fresh inner variables to one outer value). 24k pairs quick, 240k thorough.",
          "Pairs in which either program is not accepted are skipped and counted.", "5/C15"),
  "C16": ("exploration", "property-based testing with single-fault mutation operators decided by the project model; accept/reject oracle on in-process compiles",
-         "Valid programs of the core/client-graph tiers must compile without diagnostics; mutants violating exactly one rule of the statement (10 operators) at a model-chosen location must be rejected with a diagnostic. 6k programs quick, 300k thorough.",
+         "Valid programs of the core/client-graph tiers must compile without diagnostics; mutants violating exactly one rule of the statement (10 operators) at a model-chosen location must be rejected with a diagnostic. 40k programs quick, 600k thorough.",
          "The 'generated language subset' is what G-PROJECT emits in those tiers (written into the evidence); list-typed variables are excluded by construction (recorded finding); compiler crashes are C08's business.", "5/C16"),
  "C17": ("exploration", "stateful property-based testing over compile histories (in-process sessions, fresh states and fresh CLI processes), byte-exact snapshot oracle",
          "Histories: P0 compiled, then 1-5 further compiles with at least one invalid program (ten error kinds), in batch mode and as watch-style recompiles, from empty / missing / junk initial directories; the file map of the artifact directory before and after every compile that reported diagnostics must be identical. 480 histories quick, 16000 thorough.",
@@ -74,34 +74,34 @@ CHECKS = {
          "Documents with 1-3 generated literals in random layouts surrounded by non-ASCII text: the edits applied with LSP (UTF-16) semantics replace exactly each literal's text, the re-parsed declaration equals the original modulo positions, and a second formatting pass changes nothing. 4000 documents quick, 150000 thorough.",
          "Indentation / appearance is not asserted; LSP end-of-line clamping semantics assumed.", "5/C22"),
  "C23": ("exploration", "property-based differential testing against a reference UTF-8 <-> UTF-16 position converter through the real handler cores on a scratch project",
-         "Generated documents with several literals, multi-line tokens and non-ASCII / astral text before and inside literals: decoded semantic tokens are increasing, non-overlapping and each covers one generator token; formatting-edit, diagnostic and definition ranges equal the reference conversion of the compiler's byte span; hover / definition requests at token positions answer about that token. 8000 documents (572k tokens) quick.",
+         "Generated documents with several literals, multi-line tokens and non-ASCII / astral text before and inside literals: decoded semantic tokens are increasing, non-overlapping and each covers one generator token; formatting-edit, diagnostic and definition ranges equal the reference conversion of the compiler's byte span; hover / definition requests at token positions answer about that token. 20000 documents (about 1.4M tokens) quick, 240000 thorough.",
          "Lone CR line terminators are not generated; request positions only where unambiguous.", "5/C23"),
  "C24": ("exploration", "property-based testing over generated projects; hand model of the TypeScript conditional/template-literal type of iso.ts, verified against the file's shape on every run",
-         "Accepted generated programs whose type/field names are prefixes of one another, with literal headers re-laid-out (whitespace kinds, spaces around the dot, leading whitespace), and the four checked-in projects: the first overload whose pattern is a prefix of the whitespace-stripped literal must exist and belong to the same declaration. 4k programs quick.",
+         "Accepted generated programs whose type/field names are prefixes of one another, with literal headers re-laid-out (whitespace kinds, spaces around the dot, leading whitespace), and the four checked-in projects: the first overload whose pattern is a prefix of the whitespace-stripped literal must exist and belong to the same declaration. 24k programs quick, 400k thorough.",
          "No TypeScript compiler exists offline: tsc's overload resolution is modelled by hand (assumption text in the evidence); if iso.ts stops having the modelled shape the check is inconclusive, not failing.", "5/C24"),
  "C25": ("exploration", "property-based testing over generated projects (tape-driven model-first generator, proptest shrinking) compiled in-process; artifacts read as data with swc (tsread); oracle = following the module graph as read.ts does, with position tracking through the entrypoint operation (model)",
-         "Refetch-heavy generated programs (advanced tiers, __refetch / @loadable / exposed fields / pointers reused by several parents and entrypoints) and the checked-in projects: every usedRefetchQueries / refetchQueryIndex reference must be in range and select the __refetch__N artifact generated for that field at that position (operation name, wrapper, type condition, inner selection = the sub-tree at that position). 6k programs (about 6600 references) quick, 180k thorough.",
+         "Refetch-heavy generated programs (advanced tiers, __refetch / @loadable / exposed fields / pointers reused by several parents and entrypoints) and the checked-in projects: every usedRefetchQueries / refetchQueryIndex reference must be in range and select the __refetch__N artifact generated for that field at that position (operation name, wrapper, type condition, inner selection = the sub-tree at that position). 30k programs (about 33000 references) quick, 300k thorough.",
          "Below a client pointer, or when a variable cannot be resolved, only index, operation name and wrapper are judged (about 25% of references).", "5/C25"),
  "C26": ("exploration", "property-based testing over generated projects (tape-driven model-first generator, proptest shrinking) compiled in-process; artifacts read as data with swc (tsread); oracle = independent md-5 / sha2 hashing + refgql token streams of the persisted-on and persisted-off builds",
-         "Generated and checked-in programs x {md5, sha256} x extra info x custom file name: every operationId is a key of the persisted-documents file, hash(document) equals the key, the document's token stream equals that of the non-persisted build's operation, and the key set equals the referenced id set. 4k (program, configuration) cases quick, 120k thorough.",
+         "Generated and checked-in programs x {md5, sha256} x extra info x custom file name: every operationId is a key of the persisted-documents file, hash(document) equals the key, the document's token stream equals that of the non-persisted build's operation, and the key set equals the referenced id set. 16k (program, configuration) cases quick, 160k thorough.",
          "The custom file name always ends in .json; extraInfo is not judged.", "5/C26"),
  "C27": ("exploration", "property-based testing over generated projects (tape-driven model-first generator, proptest shrinking) compiled in-process; artifacts read as data with swc (tsread); oracle = the project model and the schema (param types) / the refgql AST of the operation and the schema (raw response types)",
-         "param_type.ts: exactly one property per selection named by alias-or-name, recursively; | null iff the schema type is nullable at every list level; ReadonlyArray nesting equals list nesting. raw_response_type.ts: the key tree with list depth equals the one derived from the operation and the schema, per type condition. 4k programs (about 11k param types, 4.6k raw types) quick, 120k thorough.",
+         "param_type.ts: exactly one property per selection named by alias-or-name, recursively; | null iff the schema type is nullable at every list level; ReadonlyArray nesting equals list nesting. raw_response_type.ts: the key tree with list depth equals the one derived from the operation and the schema, per type condition. 24k programs (about 66k param types, 28k raw types) quick, 240k thorough.",
          "Leaf scalar types, optional markers and output / parameters types are not judged; selections of the checked-in projects come from the reader AST.", "5/C27"),
  "C28": ("exploration", "differential property-based testing: the plugin's visitor run in-process vs the compiler's parse of the same literal; modules compared through swc codegen",
-         "Accepted literal headers x {commonjs, esmodule} x project / artifact-directory shapes x file depths: classification equals the compiler's, entrypoints import the relative path of <artifact_dir>/__isograph/<Type>/<Name>/entrypoint.ts with Type and Name from the compiler's AST, field / pointer calls become their function argument, other code unchanged. 25000 cases quick, 500000 thorough.",
+         "Accepted literal headers x {commonjs, esmodule} x project / artifact-directory shapes x file depths: classification equals the compiler's, entrypoints import the relative path of <artifact_dir>/__isograph/<Type>/<Name>/entrypoint.ts with Type and Name from the compiler's AST, field / pointer calls become their function argument, other code unchanged. 100000 cases quick, 1000000 thorough.",
          "swc parser / codegen trusted; virtual paths (no file system).", "5/C28"),
  "C29": ("exploration", "differential property-based testing (Appendix-B grammar generators + token-level mutants) against the independent refgql reference; libFuzzer campaign with the same oracle in the thorough tier",
-         "Generated executable and type-system documents (June 2018 grammar, SourceCharacters only, ignored tokens inserted freely) and four token-level mutants each: relay accepts iff the reference accepts; accepted trees equal; schema Display -> re-parse equal. 40k texts quick, 1.2M + 3M fuzz executions thorough.",
+         "Generated executable and type-system documents (June 2018 grammar, SourceCharacters only, ignored tokens inserted freely) and four token-level mutants each: relay accepts iff the reference accepts; accepted trees equal; schema Display -> re-parse equal. 120k texts quick, 2.4M + 3M fuzz executions thorough.",
          "Descriptions relay's tree has no slot for are not compared; inputs whose acceptance depends on the post-2018 number look-ahead restriction are not judged; surrogate escapes excluded; listed findings tolerated by root-cause signature. refgql is hand-written from the spec and self-checked against its generator and relay's fixtures.", "5/C29"),
  "C30": ("exploration", "differential property-based testing against the independent refgql reference inside the supported SDL subset; libFuzzer campaign in the thorough tier",
-         "Generated SDL restricted to the subset read off parse_schema.rs (+ extend type) and mutants: accept iff the reference accepts; types, fields, arguments, annotations, defaults, directives and description values equal the reference's. 40k texts quick.",
+         "Generated SDL restricted to the subset read off parse_schema.rs (+ extend type) and mutants: accept iff the reference accepts; types, fields, arguments, annotations, defaults, directives and description values equal the reference's. 120k texts quick, 2.4M + 3M fuzz executions thorough.",
          "Later-edition syntax the parser supports on purpose is not judged; listed findings tolerated by signature.", "5/C30"),
  "C31": ("exploration", "property-based testing (proptest) against an independent caret-placement oracle",
-         "Generated texts x spans on character boundaries are rendered and compared with an independent computation of the start row and of the exact character columns that must carry a caret; 40k cases quick, 2M thorough. Sampling, not proof.",
+         "Generated texts x spans on character boundaries are rendered and compared with an independent computation of the start row and of the exact character columns that must carry a caret; 400k cases quick, 4M thorough. Sampling, not proof.",
          "Spans are assumed to lie on character boundaries; the column number is not checked (the statement is about the row and the carets).", "5/C31"),
  "C32": ("exploration", "exhaustive per-literal offset enumeration over generated literals, typed walk over all resolved-node variants",
-         "For generated accepted literals and every byte offset 0..=len: the returned node and all its ancestors contain the offset, no node returned for another offset lies strictly inside it and contains the offset, and token anchors resolve to the expected node kind. 20000 literals (3.9M offsets) quick.",
+         "For generated accepted literals and every byte offset 0..=len: the returned node and all its ancestors contain the offset, no node returned for another offset lies strictly inside it and contains the offset, and token anchors resolve to the expected node kind. 60000 literals (about 12M offsets) quick, 600000 thorough.",
          "The root declaration stands for the whole literal; anchors only at unambiguous offsets.", "5/C32"),
  "C33": ("exploration", "property-based testing (proptest): round trip + exhaustive single-character edit enumeration per generated file",
          "Generated contents with one or more tokens, bare tokens and look-alike signatures are signed; the result must verify, and every single-character substitution/insertion/deletion outside the signature digits (all positions for short files) must not verify.",
